@@ -85,3 +85,6 @@ Definition v_context (err : string) (v : val) : val :=
   end.
 Definition v_max (a b : val) : val :=
   match a, b with VN x, VN y => VN (N.max x y) | _, _ => VStuck end.
+(* unsigned subtraction where it does not underflow (Rust panics where it would) *)
+Definition v_sub (a b : val) : val :=
+  match a, b with VN x, VN y => VN (x - y) | _, _ => VStuck end.
